@@ -320,7 +320,7 @@ func fileDestination(target, dep *BuildTarget, out string, dir, outPrefix, test 
 
 // Encloses the given string in quotes if needed.
 func quote(s string) string {
-	if strings.ContainsAny(s, "|&;()<>") {
+	if strings.ContainsAny(s, "|&;()<> \t\n") {
 		return "\"" + s + "\""
 	}
 	return s
